@@ -38,6 +38,12 @@ Proof.
   split; [auto|split]; congruence.
 Qed.
 
+Lemma own_node_dir : forall (a b : session) q, session_dir a = session_dir b -> own_node a q = own_node b q.
+Proof.
+  intros a b q H. unfold session_dir in H. assert (s_name a = s_name b) by congruence.
+  unfold own_node. now rewrite H0.
+Qed.
+
 Lemma get_session_sess_fwd : forall sv sv' o ss, same_sess sv sv' -> get_session sv o = Some ss ->
   exists ss', get_session sv' o = Some ss' /\ s_subs ss' = s_subs ss /\ session_dir ss' = session_dir ss.
 Proof.
@@ -55,13 +61,13 @@ Proof. intros t a b q H. unfold expected. now rewrite H. Qed.
 
 (* to establish J after a step that keeps the sessions' cores: argue with the session record of the pre-state *)
 Lemma J_intro : forall sv sv' o, same_sess sv sv' ->
-  (forall ss, get_session sv o = Some ss -> forall q, own_path ss q = false ->
+  (forall ss, get_session sv o = Some ss -> forall q, own_node ss q = false ->
               V sv' o q = Some (expected (sv_tree sv') ss q)) ->
   J sv' o.
 Proof.
   intros sv sv' o Hc H ss' Hss' q Hown.
   destruct (get_session_sess sv sv' o ss' Hc Hss') as [ss [Hss [Hsub Hdir]]].
-  rewrite (H ss Hss q); [|now rewrite (own_path_dir ss ss' q Hdir)].
+  rewrite (H ss Hss q); [|now rewrite (own_node_dir ss ss' q Hdir)].
   now rewrite (expected_subs _ ss ss' q Hsub).
 Qed.
 
@@ -105,7 +111,7 @@ Lemma micro_set_J : forall sv t1 by_ p n o,
   marks_ok (set_tree sv t1) -> pend_ok sv ->
   find_node t1 p = Some n ->
   (forall q, q <> p -> find_node t1 q = find_node (sv_tree sv) q) ->
-  (o <> by_ \/ (forall ss, get_session sv o = Some ss -> own_path ss p = true)) ->
+  (o <> by_ \/ (forall ss, get_session sv o = Some ss -> own_node ss p = true)) ->
   J sv o ->
   J (notify_changed (set_tree sv t1) by_ p (n_data n) (option_map n_data (find_node (sv_tree sv) p)) false) o.
 Proof.
@@ -136,7 +142,7 @@ Qed.
 (* one node removed, with its notice *)
 Lemma micro_remove_J : forall sv by_ p n o,
   marks_ok sv -> pend_ok sv -> find_node (sv_tree sv) p = Some n ->
-  (o <> by_ \/ (forall ss, get_session sv o = Some ss -> own_path ss p = true)) ->
+  (o <> by_ \/ (forall ss, get_session sv o = Some ss -> own_node ss p = true)) ->
   J sv o ->
   J (set_tree (notify_changed sv by_ p (n_data n) (Some (n_data n)) true)
               (remove_node (sv_tree (notify_changed sv by_ p (n_data n) (Some (n_data n)) true)) p)) o.
@@ -158,6 +164,149 @@ Proof.
     assert (Hq : q <> p) by congruence.
     unfold sv1. rewrite (notify_other_path mir sv Hmk Hpo by_ p n Hf (n_data n) (Some (n_data n)) true o q ss Hss Hq).
     rewrite (HJ ss Hss q Hown). unfold expected. now rewrite find_node_remove, Epq'.
+Qed.
+
+
+(* ------------------------------------------------------------------ SetDataNode *)
+
+Lemma find_node_add : forall t nd q,
+  find_node (add_node t nd) q = match find_node t q with
+                                | Some x => Some x
+                                | None => if path_eqb (n_path nd) q then Some nd else None
+                                end.
+Proof.
+  intros t nd q. unfold add_node. induction t as [|x t IH]; cbn [app find_node]; auto.
+  destruct (path_eqb (n_path x) q); auto.
+Qed.
+
+Lemma is_prefix_app : forall p q r, is_prefix p q = true -> is_prefix p (q ++ r) = true.
+Proof.
+  intros p q r H. apply is_prefix_spec in H as [x Hx]. apply is_prefix_spec. exists (x ++ r). now rewrite Hx, app_assoc.
+Qed.
+
+(* creating the node pp ++ [k] with payload d0, and telling its subscribers *)
+Lemma create_step_J : forall B exc sv by_ pp k d0 o, small B ->
+  inv_x B exc sv -> pend_ok sv -> (pp = [] \/ has_node (sv_tree sv) pp = true) ->
+  (length (pp ++ [k]) = 2 -> exists ss, In ss (sv_sessions sv) /\ session_dir ss = pp ++ [k]) ->
+  find_node (sv_tree sv) (pp ++ [k]) = None ->
+  (o <> by_ \/ (forall ss, get_session sv o = Some ss -> own_node ss (pp ++ [k]) = true)) ->
+  J sv o ->
+  let sv2 := notify_changed (set_tree sv (add_node (sv_tree sv) (mkNode (pp ++ [k]) d0 (new_node_table sv (pp ++ [k])))))
+                            by_ (pp ++ [k]) d0 None false in
+  J sv2 o /\ pend_ok sv2 /\ inv_x B exc sv2 /\ has_node (sv_tree sv2) (pp ++ [k]) = true /\ same_sess sv sv2
+  /\ sv_tree sv2 = add_node (sv_tree sv) (mkNode (pp ++ [k]) d0 (new_node_table sv (pp ++ [k]))).
+Proof.
+  intros B exc sv by_ pp k d0 o HB I Hpo Hpp Hd2 Hf Hwho HJ.
+  set (nd := mkNode (pp ++ [k]) d0 (new_node_table sv (pp ++ [k]))).
+  set (t1 := add_node (sv_tree sv) nd).
+  assert (I1 : inv_x B exc (set_tree sv t1)) by (apply inv_add_node; auto).
+  assert (Hf1 : find_node t1 (pp ++ [k]) = Some nd).
+  { unfold t1. rewrite find_node_add, Hf. cbn [n_path nd]. now rewrite path_eqb_refl. }
+  assert (Hoth : forall q, q <> pp ++ [k] -> find_node t1 q = find_node (sv_tree sv) q).
+  { intros q Hq. unfold t1. rewrite find_node_add. destruct (find_node (sv_tree sv) q); auto.
+    cbn [n_path nd]. assert (path_eqb (pp ++ [k]) q = false) as -> by (apply path_eqb_neq; congruence). reflexivity. }
+  pose proof (micro_set_J sv t1 by_ (pp ++ [k]) nd o (inv_marks_ok _ _ _ I1) Hpo Hf1 Hoth Hwho HJ) as H.
+  rewrite Hf in H. cbn [n_data nd option_map] in H.
+  pose proof (notify_changed_core (set_tree sv t1) by_ (pp ++ [k]) d0 None false) as Hc.
+  cbv zeta. fold nd. fold t1.
+  split; [exact H|split; [apply pend_ok_notify_changed; exact Hpo|split; [eapply inv_same_core; [exact Hc|exact I1]|split; [|split]]]].
+  - destruct Hc as [Ht _]. rewrite Ht. cbn [sv_tree set_tree].
+    apply has_node_spec. exists nd. split; [apply find_node_some in Hf1; tauto|reflexivity].
+  - apply (same_sess_trans sv (set_tree sv t1)); [reflexivity|now apply same_core_sess].
+  - now destruct Hc as [Ht _].
+Qed.
+
+Lemma set_data_loop_J : forall B exc cl sv by_ pp d dc dow o, small B ->
+  inv_x B exc sv -> pend_ok sv -> has_node (sv_tree sv) pp = true -> 2 <= length pp ->
+  (forall ss, get_session sv by_ = Some ss -> is_prefix (session_dir ss) pp = true) ->
+  J sv o ->
+  J (set_data_loop sv by_ pp cl d dc dow false) o /\ pend_ok (set_data_loop sv by_ pp cl d dc dow false).
+Proof.
+  intros B exc. induction cl as [|k rest IH]; intros sv by_ pp d dc dow o HB I Hpo Hpp Hlen Hby HJ; cbn [set_data_loop]; auto.
+  assert (Hwho : o <> by_ \/ (forall ss, get_session sv o = Some ss -> own_node ss (pp ++ [k]) = true)).
+  { destruct (N.eq_dec o by_) as [E|E]; [right|now left]. subst o. intros ss Hss.
+    apply own_node_of_prefix. apply is_prefix_app. now apply Hby. }
+  destruct (find_node (sv_tree sv) (pp ++ [k])) as [n|] eqn:Hf.
+  - destruct rest as [|k2 rest2].
+    + destruct dow; auto.
+      (* overwrite the payload of an existing node *)
+      set (t1 := set_data (sv_tree sv) (pp ++ [k]) d).
+      pose proof (inv_set_data B exc sv (pp ++ [k]) d I) as I1. fold t1 in I1.
+      assert (Hf1 : find_node t1 (pp ++ [k]) = Some (mkNode (n_path n) d (n_subs n))).
+      { unfold t1, set_data. rewrite find_node_map_node by reflexivity. rewrite Hf. cbn.
+        apply find_node_some in Hf as [_ Hp]. now rewrite Hp, path_eqb_refl. }
+      assert (Hoth : forall q, q <> pp ++ [k] -> find_node t1 q = find_node (sv_tree sv) q).
+      { intros q Hq. unfold t1, set_data. rewrite find_node_map_node by reflexivity.
+        destruct (find_node (sv_tree sv) q) as [x|] eqn:Hx; auto. cbn.
+        apply find_node_some in Hx as [_ Hxp]. rewrite Hxp.
+        assert (path_eqb q (pp ++ [k]) = false) as -> by (now apply path_eqb_neq). reflexivity. }
+      pose proof (micro_set_J sv t1 by_ (pp ++ [k]) _ o (inv_marks_ok _ _ _ I1) Hpo Hf1 Hoth Hwho HJ) as H.
+      rewrite Hf in H. cbn [n_data option_map] in H. split; [exact H|].
+      apply pend_ok_notify_changed. exact Hpo.
+    + apply IH; [exact HB|exact I|exact Hpo| | | |exact HJ].
+      * apply has_node_spec. apply find_node_some in Hf. eauto.
+      * rewrite app_length. cbn. lia.
+      * intros ss Hss. apply is_prefix_app. now apply Hby.
+  - destruct dc; auto.
+    destruct (Nat.leb max_node_depth (length pp)); auto.
+    assert (Hd2 : length (pp ++ [k]) = 2 -> exists ss, In ss (sv_sessions sv) /\ session_dir ss = pp ++ [k]).
+    { intros H. rewrite app_length in H. cbn in H. lia. }
+    destruct rest as [|k2 rest2].
+    + destruct (create_step_J B exc sv by_ pp k d o HB I Hpo (or_intror Hpp) Hd2 Hf Hwho HJ) as [H1 [H2 _]]. split; auto.
+    + destruct (create_step_J B exc sv by_ pp k empty_payload o HB I Hpo (or_intror Hpp) Hd2 Hf Hwho HJ) as [H1 [H2 [H3 [H4 [H5 _]]]]].
+      apply IH; [exact HB|exact H3|exact H2|exact H4| | |exact H1].
+      * rewrite app_length. cbn. lia.
+      * intros ss Hss.
+        destruct (get_session_sess sv _ by_ ss H5 Hss) as [ss0 [Hss0 [_ Hdir]]].
+        rewrite <- Hdir. apply is_prefix_app. now apply Hby.
+Qed.
+
+(* ------------------------------------------------------------------ RemoveChild(recurse) *)
+
+Lemma remove_fold_J : forall Lq sv by_ o,
+  marks_ok sv -> pend_ok sv ->
+  (forall q, In q Lq -> o <> by_ \/ (forall ss, get_session sv o = Some ss -> own_node ss q = true)) ->
+  J sv o ->
+  let sv' := fold_left (fun sv' q =>
+               match find_node (sv_tree sv') q with
+               | None => sv'
+               | Some n =>
+                 let sv1 := notify_changed sv' by_ q (n_data n) (Some (n_data n)) true in
+                 set_tree sv1 (remove_node (sv_tree sv1) q)
+               end) Lq sv in
+  J sv' o /\ pend_ok sv' /\ marks_ok sv' /\ same_sess sv sv'.
+Proof.
+  induction Lq as [|q Lq IH]; intros sv by_ o Hmk Hpo Hwho HJ; cbn [fold_left].
+  - split; [auto|split; [auto|split; [auto|reflexivity]]].
+  - destruct (find_node (sv_tree sv) q) as [n|] eqn:Hf.
+    + set (sv1 := notify_changed sv by_ q (n_data n) (Some (n_data n)) true).
+      assert (Hc1 : same_core sv sv1) by apply notify_changed_core.
+      set (sv2 := set_tree sv1 (remove_node (sv_tree sv1) q)).
+      assert (Hs2 : same_sess sv sv2) by (apply (same_sess_trans sv sv1); [now apply same_core_sess|reflexivity]).
+      destruct (IH sv2 by_ o) as [H1 [H2 [H3 H4]]].
+      * unfold sv2. apply marks_ok_remove. now apply (marks_ok_core sv).
+      * unfold sv2, sv1. apply pend_ok_notify_changed. exact Hpo.
+      * intros q' Hq'. destruct (Hwho q' (or_intror Hq')) as [H|H]; [now left|right].
+        intros ss2 Hss2. destruct (get_session_sess sv sv2 o ss2 Hs2 Hss2) as [ss [Hss [_ Hdir]]].
+        rewrite <- (own_node_dir ss ss2 q' Hdir). now apply H.
+      * unfold sv2, sv1. apply micro_remove_J; auto. apply Hwho. now left.
+      * split; [auto|split; [auto|split; [auto|]]]. now apply (same_sess_trans sv sv2).
+    + apply IH; auto. intros q' Hq'. apply Hwho. now right.
+Qed.
+
+Lemma remove_subtree_J : forall sv by_ p o,
+  marks_ok sv -> pend_ok sv ->
+  (o <> by_ \/ (forall ss, get_session sv o = Some ss -> is_prefix (session_dir ss) p = true)) ->
+  J sv o ->
+  J (remove_subtree sv by_ p true) o /\ pend_ok (remove_subtree sv by_ p true)
+  /\ marks_ok (remove_subtree sv by_ p true) /\ same_sess sv (remove_subtree sv by_ p true).
+Proof.
+  intros sv by_ p o Hmk Hpo Hwho HJ. unfold remove_subtree.
+  apply (remove_fold_J (removal_order (S (length (sv_tree sv))) (sv_tree sv) p) sv by_ o Hmk Hpo); auto.
+  intros q Hq. destruct Hwho as [H|H]; [now left|right]. intros ss Hss.
+  apply removal_order_below in Hq. specialize (H ss Hss). apply own_node_of_prefix.
+  apply is_prefix_spec in H as [r1 Hr1]. apply is_prefix_spec in Hq as [r2 Hr2]. apply is_prefix_spec.
+  exists (r1 ++ r2). now rewrite Hr2, Hr1, app_assoc.
 Qed.
 
 End Steps.
